@@ -125,6 +125,8 @@ def describedFns (desc : String) : Option Fns :=
   | ["trace-minus", n] => (n.toNat? >>= Op.ofNum).map (fun x => fun o => if o = x then none else some (traceFn o))
   | ["override", n] => (n.toNat? >>= Op.ofNum).map (fun x => fun o => if o = x then some (traceFn o) else pgFns o)
   | ["override-inplace", n] => (n.toNat? >>= Op.ofNum).map (fun x => fun o => if o = x then some (traceFn o) else pgFns o)
+  | ["delete", n] => (n.toNat? >>= Op.ofNum).map (fun x => fun o => if o = x then none else pgFns o)
+  | ["instance-delete", n] => (n.toNat? >>= Op.ofNum).map (fun x => fun o => if o = x then none else pgFns o)
   | ["fail", n] => (n.toNat? >>= Op.ofNum).map (fun x => fun o => if o = x then some (fun _ _ => .err) else some (traceFn o))
   | _ => none
 
